@@ -22,7 +22,7 @@ def main(tier):
     r, s = cx.repo, cx.schema
     chk.run("R-PIPE", P.pipe, r, floor=12, control=lambda: P.control_pipe(r))
     chk.run("R-TOPOGUARD", DR.topoguard, r, floor=8)
-    chk.run("R-TARJAN", DR.tarjan, r, floor=10)
+    chk.run("R-TARJAN", DR.tarjan, r, floor=10, order_clause=False)
     chk.run("R-SELFIMPORT", DR.selfimport, r, floor=2)
     chk.run("R-DEPTWIN", P.deptwin, r, s, cx.sites, floor=2)
     chk.run("R-SKIPLOSS", T.skiploss, r, s, cx.sites, modules=("dependency_checker.py",), floor=4)
